@@ -91,8 +91,9 @@ def gen_scenario(rng, bal):
     req(rng.choice([2, 4, 5]))
     down = rng.randrange(3)
     sc.append(("mode", down, "refuse")); req(rng.choice([3, 4, 6])); sc.append(("stats",))
-    if rng.random() < 0.5:
-        d2 = (down + 1) % 3; sc.append(("mode", d2, "refuse")); req(3); sc.append(("mode", d2, "ok"))
+    if bal == "rr" or rng.random() < 0.5:
+        # two of three hosts out: round-robin must keep finding the only one left (its own index is where the wrapped search ends)
+        d2 = (down + rng.choice([1, 2])) % 3; sc.append(("mode", d2, "refuse")); req(4 if bal == "rr" else 3); sc.append(("mode", d2, "ok"))
     sc.append(("sleep", 1.3)); sc.append(("stats",)); req(2)
     sc.append(("mode", down, "ok")); sc.append(("sleep", DT + 2.2)); req(rng.choice([3, 6])); sc.append(("stats",))
     # requests in flight on a hanging backend, then aborted by the client
